@@ -55,7 +55,12 @@ type gcfg struct {
 	flt    []string // per quota: own filter ("" = host/*)
 }
 
-func (g gcfg) line() string {
+func (g gcfg) line() string { return fmt.Sprintf("cfg t0=%d ", g.t0) + g.body() }
+
+// the configuration loaded again; it starts at the instant of the reload
+func (g gcfg) reloadLine() string { return "reload " + g.body() }
+
+func (g gcfg) body() string {
 	var b strings.Builder
 	e := 0
 	if g.early {
@@ -69,7 +74,7 @@ func (g gcfg) line() string {
 	if g.expSet != nil && !g.gcSet {
 		gcw = "-"
 	}
-	fmt.Fprintf(&b, "cfg t0=%d gc=%s early=%d order=%s", g.t0, gcw, e, strings.Join(ord, ","))
+	fmt.Fprintf(&b, "gc=%s early=%d order=%s", gcw, e, strings.Join(ord, ","))
 	for i, q := range g.tp.quotas {
 		ex := fmt.Sprint(g.expSec[i])
 		if g.expSet != nil && !g.expSet[i] {
@@ -194,6 +199,14 @@ func (h *hist) resp(id int) {
 	h.ops = append(h.ops, op)
 }
 
+// reload: a new engine from configuration g starts at the current instant; what the old one held is gone with it
+func (h *hist) reload(g gcfg) {
+	g.t0 = h.now
+	h.g = g
+	h.expiry = nil
+	h.ops = append(h.ops, g.reloadLine())
+}
+
 func (h *hist) adv(d int64) {
 	if d < 0 {
 		d = 0
@@ -230,8 +243,22 @@ func randomCase(r *prng.R, id string, maxLen int) proto.Case {
 	ntx := r.Range(1, 4)
 	fresh := 10
 	ln := r.Range(4, maxLen)
+	reloads := r.Chance(25)
 	for len(h.ops) <= ln {
 		tx := r.Range(1, ntx)
+		if reloads && r.Chance(12) {
+			// the same configuration again, changed settings on the same quota tree, or another tree
+			switch r.Intn(3) {
+			case 0:
+				h.reload(h.g)
+			case 1:
+				h.reload(randCfg(r, h.g.tp))
+			default:
+				h.reload(randCfg(r, prng.Pick(r, topos)))
+			}
+			g = h.g
+			continue
+		}
 		switch k := r.Intn(100); {
 		case k < 38:
 			if g.flt != nil {
@@ -259,7 +286,8 @@ func randomCase(r *prng.R, id string, maxLen int) proto.Case {
 func malformedCase(r *prng.R, id string) proto.Case {
 	g := randCfg(r, topos[0])
 	bad := []string{"req r=1", "req m=G", "req r=x m=G", "resp", "err r=-1", "adv d=-5", "adv", "nop r=1", "req r=1 m=Q",
-		"cfg t0=1 gc=0 early=0 order=0 q0=c,1,1,-", "cfg t0=1 gc=1 early=0 order=3 q0=c,1,1,-", "cfg t0=1 gc=1 early=0 order=0 q0=c,1,1,0"}
+		"cfg t0=1 gc=0 early=0 order=0 q0=c,1,1,-", "cfg t0=1 gc=1 early=0 order=3 q0=c,1,1,-", "cfg t0=1 gc=1 early=0 order=0 q0=c,1,1,0",
+		"reload", "reload t0=5 gc=1 early=0 order=0 q0=c,1,1,-", "reload gc=0 early=0 order=0 q0=c,1,1,-", "reload gc=1 early=0 order=2 q0=c,1,1,-"}
 	ops := []string{}
 	if r.Chance(30) {
 		ops = append(ops, prng.Pick(r, bad)) // before any cfg
@@ -478,6 +506,61 @@ func defaultsFamily(emit func(proto.Case)) {
 	}
 }
 
+// the configuration loaded twice and three times into the process (the same, then with changed settings), at a GC instant
+// of the first load or between two; after every load transactions that nobody answers fill the quota and the clock
+// moves past their expiry and the GC instants of that load: the rebuilt quota must give the slots back as the first
+// one did. A transaction admitted before a reload is answered after it.
+func reloadFamily(emit func(proto.Case)) {
+	id := 0
+	for _, tp := range []topo{topos[0], topos[3], topos[1], topos[13]} {
+		for _, off := range []int64{0, sec / 2, 2*sec + 300*deltaD} {
+			for _, gcs := range []int64{1, 2} {
+				n := len(tp.quotas)
+				g := gcfg{t0: baseT0, gcSec: gcs, early: false, tp: tp, max: make([]int64, n), expSec: make([]int64, n)}
+				for i := range tp.quotas {
+					g.max[i], g.expSec[i] = 1, 1
+				}
+				h := &hist{g: g, now: g.t0}
+				h.ops = append(h.ops, g.line())
+				tx := 0
+				fill := func() {
+					tx++
+					h.req(tx, false) // admitted, nobody answers
+					tx++
+					h.req(tx, false) // refused: full
+					h.apply("expire 0")
+					tx++
+					h.req(tx, false) // the slot is back
+				}
+				fill()
+				h.adv(off)
+				h.reload(h.g)
+				fill()
+				h.resp(tx - 3) // admitted by the first load, answered now
+				tx++
+				h.req(tx, false)
+				g2 := h.g
+				g2.max = append([]int64{}, g2.max...)
+				g2.expSec = append([]int64{}, g2.expSec...)
+				for i := range tp.quotas {
+					g2.max[i], g2.expSec[i] = 2, 2
+				}
+				g2.gcSec = 3 - gcs
+				h.adv(off / 2)
+				h.reload(g2)
+				tx++
+				h.req(tx, false)
+				fill()
+				h.adv(g2.gcSec * sec)
+				tx++
+				h.req(tx, false)
+				id++
+				emit(proto.Case{ID: fmt.Sprintf("reload%d", id), Ops: h.ops})
+			}
+		}
+	}
+}
+
 func gen(r *prng.R, f proto.Flags, emit func(proto.Case)) {
 	n := 1500
 	if f.Tier == "thorough" {
@@ -509,6 +592,7 @@ func gen(r *prng.R, f proto.Flags, emit func(proto.Case)) {
 		}
 	}
 	defaultsFamily(emit)
+	reloadFamily(emit)
 	genStress(emit, f.Tier == "thorough")
 	if f.Tier == "thorough" {
 		exhaustive(emit)
